@@ -53,6 +53,12 @@ Verdict(c) ==
   \* (files of items without a library only appear in the global lists)
   ELSE IF ~(lists(LAMBDA l : l.append) \subseteq SeqRange(c.plan.append)
             /\ lists(LAMBDA l : l.transform) \subseteq T /\ lists(LAMBDA l : l.remove) \subseteq R) THEN "lib-lists"
+  \* the same rule per library: of the files a library's list transforms, exactly the not replicated ones are removed
+  ELSE IF \E i \in DOMAIN c.plan.libs :
+            LET l == c.plan.libs[i]
+                lt == {t.fid : t \in {x \in SeqRange(l.transform) : x.kind = "orig"}}
+                lr == {t.fid : t \in {x \in SeqRange(l.remove) : x.kind = "orig"}}
+            IN lr # {o \in lt : ~Replicated(c, SF, GF, o)} THEN "lib-remove"
   ELSE IF \E i, j \in DOMAIN c.plan.libs : i # j /\ SeqRange(c.plan.libs[i].append) \cap SeqRange(c.plan.libs[j].append) # {} THEN "lib-lists"
   ELSE "ok"
 
